@@ -355,6 +355,9 @@ def unit_shapes(job):
                 try:
                     return True, f(*a)
                 except Exception as e:
+                    from pyvc.core import proxy_leak, OutOfSubset
+                    if proxy_leak(e):
+                        raise OutOfSubset('a proxy reached code outside the encoding: %s' % str(e)[:120])
                     c.oblige('%s/returns-a-value' % name, False, 'raises', meta=dict(exc=type(e).__name__))
                     return False, None
             ok, k = call('discipline_sort_key', ns.dsk, s)
@@ -457,7 +460,10 @@ def unit_sorter(job):
                 if not disc:
                     return 6, 0, '?'
                 return keys[disc]
-            f = instrument(u.sort_by_discipline, shadows={'discipline_sort_key': stub})
+            def text_stub(disc):
+                from pyvc.builtins_sym import sym_format
+                return sym_format('%d_%05d_%s', stub(disc))      # contract of text_discipline_sort_key: renders the key
+            f = instrument(u.sort_by_discipline, shadows={'discipline_sort_key': stub, 'text_discipline_sort_key': text_stub})
             items, want = [], []
             for kd in combo:
                 if kd.startswith('dict'):
@@ -475,6 +481,9 @@ def unit_sorter(job):
             try:
                 out = f(list(items))
             except Exception as e:
+                from pyvc.core import proxy_leak, OutOfSubset
+                if proxy_leak(e):
+                    raise OutOfSubset('a proxy reached code outside the encoding: %s' % str(e)[:120])
                 c.oblige('sort_by_discipline/returns-a-value', False, 'raises', meta=dict(exc=type(e).__name__, records=list(combo)))
                 return None
             c.oblige('sort_by_discipline/returns-a-value', True, 'raises')
@@ -506,12 +515,30 @@ def conc_sorter(r):
     u = utils()
     m = r.get('model') or {}
     recs = r['ctx']['records']
-    # two real codes: equal group and distance when the model ties them, else different
+    # two real codes whose keys realise the model's (group, distance) where the vocabulary has such a code
+    def code_for(g, d, default):
+        c = codes()
+        cand = None
+        if isinstance(g, int) and isinstance(d, int):
+            if g == 1:
+                cand = str(d)
+            elif g == 2 and 10 <= d <= 9999:
+                cand = '%dH' % d
+            elif g == 5:
+                cand = '4x%d' % d
+            elif g in (3, 4) and 0 <= d < len(c.FIELD_SORT_ORDER):
+                cand = c.FIELD_SORT_ORDER[d]
+            elif g == 6:
+                cand = 'DEC'
+        try:
+            if cand and c.PAT_EVENT_CODE.match(cand) and u.discipline_sort_key(cand)[:2] == (g, d):
+                return cand
+        except Exception:
+            pass
+        return default
     tie = m.get('gA') == m.get('gB') and m.get('dA') == m.get('dB')
-    A, B = ('100', '100 ') if tie else ('100', '200')
-    # '100' and '100 ' are not both codes; use two spellings with the same key components instead
-    if tie:
-        A, B = '100', '100'
+    A = code_for(m.get('gA'), m.get('dA'), '100')
+    B = A if tie else code_for(m.get('gB'), m.get('dB'), '200' if A != '200' else '100')
 
     class Rec(object):
         pass
@@ -748,6 +775,11 @@ def main(tier, seed):
         else:
             run.violation('contracts-hold-on-the-enumerated-language', dict(call='event code %r (and %d more)' % (ss[0], len(ss) - 1), observed=w,
                                                                             more=ss[:10], input=['code', ss[0]]), True)
+    if not allbad and not any(v['obligation'].startswith(('ordering/', 'contracts-hold')) for v in run.violations):
+        # a function that has left the modelled subset on this tree (in-subset undecided) falls back on the run-time contracts
+        # over the enumerated language, which held: bounded, level other
+        run.standin_covers('functions?*in-subset')
+        run.standin_covers('sorter?*in-subset')
     run.extra['shapes_explored'] = nshape
     for d in _namespace()[0].describe() + [_namespace()[1].describe(), _namespace()[2].describe()]:
         run.add_function(d)
